@@ -133,11 +133,15 @@ def check_coverage(ctx, chk):
     if ok:
         ev = sub_upd[0]
         loops = [cn.show(ip.loops[c[1]]["iter"]) for c in ev.pc if c[0] == "inloop"]
-        F = f_show(cn.conj(tuple(c for c in ev.pc if c[0] not in ("inloop", "fact"))))
+        Ff = cn.conj(tuple(c for c in ev.pc if c[0] not in ("inloop", "fact")))
+        F = f_show(Ff)
         E = "each(enumerate(G.subnets))"
         arg = cn.show(ev.data["args"][1])
-        ok = loops == ["enumerate(G.subnets)"] and f"0=={E}[0]" in F and \
-            f"{E}[0] in " in F and F.startswith("!(") and \
+        # exactly: not the internet, and not in the set of subnets known vulnerable
+        from sa.canon import f_atoms
+        mem = [a for a in f_atoms(Ff) if a.startswith(f"{E}[0] in ")]
+        ok = loops == ["enumerate(G.subnets)"] and len(mem) == 1 and \
+            f_equiv(Ff, f_and([f_not(A(f"0=={E}[0]")), f_not(A(mem[0]))])) and \
             arg == f"G.hosts[({E}[0], np.random.randint({E}[1]))]"
         detail = f"patches {arg} under {F[:200]} in loops {loops}"
     chk.ob("C16.coverage", "every non-internet subnet not yet known vulnerable gets one of its hosts "
